@@ -762,16 +762,28 @@ func c09injectStore(h *Harness, s crlstore.CRLStore, f crlstore.Factory, backend
 		ld := s.(*crlstore.LevelDbStore)
 		// move the data into a table file: close and reopen replays the journal
 		ld.Db.Close()
-		db, err, _ := h.Disk.OpenLevelDB(ld.LevelDBPath, nil)
+		// reopen through the repository's own factory, so that the database runs with whatever options the code
+		// under test opens it with (not with the harness's)
+		if f == nil {
+			f, _ = crlstore.CreateStoreFactory(crlstore.LevelDB, ld.BasePath, zap.NewNop())
+		}
+		ns, err := f.CreateStore(ld.Identifier, false)
 		if err != nil {
 			panic(err)
 		}
-		ld.Db = db
+		ld.Db = ns.(*crlstore.LevelDbStore).Db
 		if fault == "read-error" {
 			h.Disk.StReadBad = func(n int, file string, off int64, p []byte) error { return ErrIO }
 		} else {
+			// bit rot inside a table block: where the victim's stored key is visible in the block, its last byte is hit
+			// (the record can then no longer be found by key); otherwise a byte in the middle of the block
 			h.Disk.StReadBad = func(n int, file string, off int64, p []byte) error {
-				if len(p) > 8 {
+				if i := bytes.Index(p, hk); i >= 0 {
+					p[i+len(hk)-1] ^= 0x01
+					h.Probe("corrupt-block:key-hit")
+				} else if len(p) >= 100 {
+					// another (data or index) block: a byte in the middle; footers and the meta-index stay intact so that
+					// the lookup actually reaches the damaged data
 					p[len(p)/2] ^= 0x5a
 				}
 				return nil
